@@ -3,17 +3,20 @@
 
 spec/ReactionText.tla (+ Decimal.tla, ReactionText_MC slices, ReactionTextTrace).  Directions:
   spec -> code : every terminal state of the exhaustive slices (keys incl. bracket-leading ones,
-                 coefficient forms, parameters + keywords, multi-line systems with comments,
-                 the rejection classes) is a case: text + expected denotation per line (or
-                 "raises") + what reading the printed text must give back.  Replayed into
-                 Reaction / Equilibrium.from_string, ReactionSystem / EqSystem.from_string,
-                 .copy(), ==, str(), .string().
+                 coefficient forms, parameter kinds and spellings + keywords, multi-line systems
+                 with comments, reader configurations - container of the allowed-key list,
+                 globals_, comment_tokens, missing_substances_from_keys, keyword arguments,
+                 spacing, line ends -, the rejection classes) is a case: text + configuration +
+                 expected denotation per line (or "raises") + what reading the printed text must
+                 give back under every printing option.  Replayed into Reaction / Equilibrium /
+                 ReactionSystem / EqSystem.from_string, .copy(), ==, str(), .string(...).
   code -> spec : seeded texts beyond the bounds (<= 5 terms per side, random space-free keys,
                  coefficients 1..1000 and decimals, parameters with up to 15 digits over 30
-                 decades, systems with up to 5 reactions and comments, injected faults) and
-                 the reaction lines the repository's own tests parse are read by the real code;
-                 TLC replays the token events through the ReactionText actions and judges the
-                 projected observation (ReactionTextTrace).
+                 decades, quantities and quoted names, systems with up to 5 reactions and
+                 comments, random configurations, injected faults) and the reaction lines the
+                 repository's own tests parse are read by the real code; TLC replays the token
+                 events through the ReactionText actions and judges the projected observation
+                 (ReactionTextTrace).
 """
 import glob
 import os
@@ -24,36 +27,44 @@ import reaction_common as rc
 LEVEL = "model_checking"
 RULE = ("cases = terminal states of the sliced exhaustive ReactionText_MC configs (TLC) + seeded token "
         "sequences and lexed lines of the repository's tests validated by ReactionTextTrace; distinct = "
-        "distinct texts; non-trivial = more than two terms, or a coefficient, parameter, parenthesised "
-        "term, bracket-leading key, comment or injected fault")
+        "distinct (text, configuration) pairs; non-trivial = more than two terms, or a coefficient, parameter, "
+        "parenthesised term, bracket-leading key, comment, non-default configuration or injected fault")
 ASSUMPTIONS = [
     "coefficients returned as floats are encoded as rationals p/q (q <= 10^6, rel. residual <= 1e-12); "
     "a numeric parameter is identified with the exact decimal of its repr()",
-    "the constructor's documented default checks (all_integral, any_effect; duplicate for systems) are "
-    "switched off with checks=() for texts the specification flags (non-integral coefficients, zero net "
-    "effect, duplicate lines) and for all seeded texts: they are properties of the constructor, not of reading",
+    "the constructor's documented default checks (all_integral, any_effect, consistent_units; duplicate for "
+    "systems) are switched off with checks=() for texts the specification flags (non-integral coefficients, "
+    "zero net effect, quantity parameters, duplicate lines / names) and for all seeded texts: they are "
+    "properties of the constructor, not of reading",
     "systems are read with substance_factory=Substance (keys are arbitrary space-free strings, not formulas)",
     "a key that is one wholly parenthesised group, '(X)', is not generated (indistinguishable from an "
     "inactive term without coefficient); at most one '; keyword' part (comma separated pairs) is written",
+    "the printed text is read back with the default globals_ and without keyword arguments, but with the same "
+    "allowed-key list and system options",
 ]
 
 # printers of the round trip (short names: TLC wraps long VERDICT tuples over several lines)
-PRINTERS = {"str": "str()", "sdef": "string()", "ydef": "system.string()"}
+PRINTERS = {"str": "str()", "sdef": "string()", "ydef": "system.string()", "smap": "string(substances, with_param=True)"}
 for _wp in (0, 1):
     for _wn in (0, 1):
         PRINTERS["s%d%d" % (_wp, _wn)] = "string(with_param=%s, with_name=%s)" % (bool(_wp), bool(_wn))
         PRINTERS["y%d%d" % (_wp, _wn)] = "system.string(with_param=%s, with_name=%s)" % (bool(_wp), bool(_wn))
-QUICK = ["keys_q", "coefs_q", "params_q", "system_q", "system3_q", "faults_q", "faults2_q"]
-THOROUGH = ["keys_t", "coefs_t", "params_t", "system_t", "system2_t", "system_q", "system3_q", "faults_t", "faults2_q"]
+QUICK = ["keys_q", "coefs_q", "pkinds_q", "system_q", "config_q", "configsys_q", "faults2_q"]
+THOROUGH = ["keys_t", "coefs_t", "params_t", "pkinds_t", "system_t", "system2_t", "system_q", "system3_q",
+            "config_t", "configsys_t", "faults_t", "faults_q", "faults2_q"]
 NEED = {
     "keys": ["-br", "-bareparen", "-inact", "-rep"],
     "coefs": ["-dec", "-star", "-rep", "-inact"],
     "params": ["-param", "-kw", "-eq"],
+    "pkinds": ["-param", "-qty", "-sym", "-kw", "-eq"],
     "system": ["-sys", "-param"],
     "system2": ["-sys", "-inact", "-kw"],
     "system3": ["-sys", "-kw", "-eq"],
+    "config": ["-wide", "-tight", "-lfnt", "-crlf", "-gempty", "-gnone", "-args"],
+    "configsys": ["-ctoks", "-msfk", "-crlf", "fault-notacomment", "fault-unknownkey", "-empty"],
     "faults": ["fault-unknownkey", "fault-missingarrow", "fault-wrongarrow", "ok-"],
-    "faults2": ["fault-unknownkey", "-bareparen"],
+    "faults2": ["fault-unknownkey", "fault-missingarrow", "fault-wrongarrow", "-allowed-tuple", "-allowed-set",
+                "-allowed-dict", "-allowed-str"],
 }
 
 
@@ -70,30 +81,30 @@ def _line_diff(o, e):
     return bad
 
 
+def _lines_diff(obs_lines, exp_lines):
+    if len(obs_lines) != len(exp_lines):
+        return ["number-of-reactions"]
+    bad = []
+    for o, x in zip(obs_lines, exp_lines):
+        bad += _line_diff(o, x)
+    return sorted(set(bad))
+
+
 def _rt_line_diff(o, e):
     bad = [f for f in ("reac", "prod") if _pairs(o[f]) != _pairs(e[f])]
     bad += [f for f in ("ireac", "iprod") if o[f]]
-    if e["param"]["some"]:
-        if not o["param"]["some"] or o["param"]["v"] not in e["param"]["allowed"]:
+    ep, op = e["param"], o["param"]
+    if not ep["some"]:
+        if op["some"]:
             bad.append("param")
-    elif o["param"]["some"]:
+    elif not op["some"] or op["kind"] != ep["kind"]:
+        bad.append("param")
+    elif ep["kind"] == "sym":
+        if op["name"] != ep["name"]:
+            bad.append("param")
+    elif op["v"] not in ep["allowed"]:
         bad.append("param")
     return bad
-
-
-def _confined(fields, facts):
-    """Does the disagreement touch only the sides on which a bare term stands whose key begins
-    with '(' (keying of the known finding; the disagreement itself is established above)."""
-    sides = set(facts["bareparen"])
-    ok = set()
-    for s in sides:
-        ok |= {s, "i" + s}
-    if facts.get("bareparen_closed") and facts.get("allowed"):
-        # '(NH4)2SO4(s)' is taken for the inactive term 'NH4)2SO4(s', which the allowed list rejects
-        ok |= {"raise", "rejected"}
-    if facts.get("unknown_bareparen"):
-        ok.add("missing-raise")
-    return bool(sides) and bool(fields) and set(fields) <= ok
 
 
 def judge_case(case, obs):
@@ -105,23 +116,27 @@ def judge_case(case, obs):
         return None if obs["raised"] else ("read", ["missing-raise"], {"raise": True, "fault": e["fault"]})
     if obs["raised"]:
         return ("read", ["raise"], {"raise": False, "lines": e["lines"]})
-    if len(obs["lines"]) != len(e["lines"]):
-        return ("read", ["number-of-reactions"], {"lines": e["lines"]})
-    bad = []
-    for o, x in zip(obs["lines"], e["lines"]):
-        bad += _line_diff(o, x)
+    bad = _lines_diff(obs["lines"], e["lines"])
     if bad:
-        return ("read", sorted(set(bad)), {"lines": e["lines"]})
+        return ("read", bad, {"lines": e["lines"]})
     if obs.get("retried"):
         # read correctly, but only after switching the default checks off although TLC did not ask for it
         return ("read", ["raise"], {"raise": False, "lines": e["lines"]})
+    if case["in"]["system"] and sorted(obs["substances"]) != sorted(e["substances"]):
+        return ("read", ["substances"], {"substances": sorted(e["substances"])})
     if not obs["copy_eq"]:
         return ("copy", ["copy-not-equal"], {"copy_eq": True})
-    bad = []
-    for o, x in zip(obs["copy_lines"], e["lines"]):
-        bad += _line_diff(o, x)
-    if bad or len(obs["copy_lines"]) != len(e["lines"]):
-        return ("copy", sorted(set(bad)) or ["number-of-reactions"], {"lines": e["lines"]})
+    bad = _lines_diff(obs["copy_lines"], e["lines"])
+    if bad:
+        return ("copy", bad, {"lines": e["lines"]})
+    if not obs["copy_indep"]:
+        return ("copy", ["copy-equal-after-mutation"], {"copy_indep": True})
+    bad = _lines_diff(obs["after_lines"], e["lines"])
+    if bad:
+        return ("copy", ["original-changed-with-copy"] + bad, {"lines": e["lines"]})
+    bad = _lines_diff(obs["copy_over_lines"], e["copy_over"])
+    if bad:
+        return ("copy(param=...)", bad, {"lines": e["copy_over"]})
     if e["printable"]:
         exp_by_opt = {(x["wp"], x["wn"]): x for x in e["rt"]}
         seen = set((rt["wp"], rt["wn"]) for rt in obs["rts"])
@@ -134,7 +149,6 @@ def judge_case(case, obs):
                 return (what, ["option"], None)
             if rt["raised"]:
                 return (what, ["printed-text-rejected"], {"rt": x})
-            retried = rt.get("retried")
             if len(rt["lines"]) != len(x["lines"]):
                 return (what, ["number-of-reactions"], {"rt": x})
             bad = []
@@ -142,57 +156,57 @@ def judge_case(case, obs):
                 bad += _rt_line_diff(o, xl)
             if bad:
                 return (what, sorted(set(bad)), {"rt": x})
-            if retried:
+            if rt.get("retried"):
                 return (what, ["printed-text-rejected"], {"rt": x})
             if all(xl["exact"] for xl in x["lines"]) and not rt["eq"]:
                 return (what, ["not-equal-to-original"], {"rt": x})
     return None
 
 
-def case_facts(case, what):
-    e = case["exp"]
-    sides = e["rt_bareparen"] if what.startswith("roundtrip") else e["bareparen"]
-    return {"bareparen": sides, "bareparen_closed": False, "allowed": case["in"]["allowed"]["given"],
-            "unknown_bareparen": e["unknown_bareparen"]}
-
-
 def replay_case(case):
     i, e = case["in"], case["exp"]
-    allowed = list(i["allowed"]["keys"]) if i["allowed"]["given"] else None
     nochecks = bool(e["raise"] or any(e["nochecks"]) or e["duplicates"])
     opts = [(x["wp"], x["wn"], x["duplicates"]) for x in e["rt"]] if e["printable"] else None
-    obs = rc.observe(i["doc"], i["klass"], i["system"], allowed, nochecks, opts)
+    obs = rc.observe(i["doc"], i["klass"], i["system"], i["allowed"], i["cfg"], nochecks, opts, e["override"])
     return obs, judge_case(case, obs)
 
 
 def _fn(klass, system):
     if system:
-        return ("ReactionSystem" if klass == "Reaction" else "EqSystem") + ".from_string"
+        return ("EqSystem" if klass == "Equilibrium" else "ReactionSystem") + ".from_string"
     return klass + ".from_string"
 
 
-def _key(fn, what, fields, facts, cls=None):
-    k = {"fn": fn, "what": what, "diff": ",".join(fields),
-         "feature": "bare-paren-key" if facts["bareparen"] else "",
-         "diff_confined": _confined(fields, facts)}
+def _key(fn, what, fields, cfg, allowed, cls=None, empty=False):
+    k = {"fn": fn, "what": what, "diff": ",".join(fields), "msfk": bool(cfg["msfk"]), "empty": bool(empty),
+         "config": ",".join("%s=%s" % (n, cfg[n]) for n in ("spc", "eol", "gmode", "ctoks", "msfk", "dq")
+                            if cfg[n] != rc.DEFAULT_CFG[n]) or "default",
+         "allowed": allowed["form"] if allowed["given"] else "none"}
     if cls is not None:
         k["cls"] = cls
     return k
 
 
 # ---------------------------------------------------------------- traces
+OBS_KEYS = ("doc", "klass", "raised", "lines", "copy_eq", "copy_lines", "substances", "copy_indep", "after_lines",
+            "copy_over_lines")
+OVERRIDE = {"neg": False, "digs": [7, 2, 5], "e": 0}     # ReactionText!OverrideParam (checked by TLC: copy-over clause)
+
+
 def run_trace(events):
     """events (without result) -> full trace + observation"""
-    doc, klass, allowed = rc.events_doc(events)
+    doc, klass, allowed, cfg = rc.events_doc(events)
     facts = rc.line_facts(events)
-    system = len(doc) > 1
-    obs = rc.observe(doc, klass, system, allowed, True, facts["print_opts"] if facts["printable"] else None)
+    system = facts["system"] or len(doc) > 1 or not any(e["k"] in ("term", "inact", "unknown") for e in events)
+    obs = rc.observe(doc, klass, system, allowed, cfg, True, facts["print_opts"] if facts["printable"] else None,
+                     OVERRIDE)
+    obs["cfg"], obs["allowed"] = cfg, allowed
     if obs.get("unencodable"):
         return None, obs, facts
     tr = list(events)
     if facts["printable"]:
         tr += [{"k": "print"}, {"k": "parse"}]
-    o = {k: obs[k] for k in ("doc", "klass", "raised", "lines", "copy_eq", "copy_lines")}
+    o = {k: obs[k] for k in OBS_KEYS}
     o["rts"] = [{k: rt[k] for k in ("kind", "wp", "wn", "raised", "lines", "eq")} for rt in obs["rts"]]
     tr.append({"k": "result", "obs": o})
     return tr, obs, facts
@@ -235,7 +249,7 @@ def _judge_traces(ctx, seqs, labels):
     verdicts = ctx.validate_traces("ReactionTextTrace", "ReactionTextTrace.cfg", traces, chunk=14000)
     for tr, (evs, obs, facts, label), (v, pos, clause) in zip(traces, keep, verdicts):
         txt = "\n".join(obs["doc"])
-        ctx.ran(txt, nontrivial=_nontrivial_events(evs))
+        ctx.ran([txt, obs["cfg"], obs["allowed"]], nontrivial=_nontrivial_events(evs))
         if v == "accept":
             continue
         if clause.startswith("step:") or clause in ("text", "class", "notdone", "no-result-event"):
@@ -246,11 +260,10 @@ def _judge_traces(ctx, seqs, labels):
         field = clause.split(":")[-1]
         fields = ["raise"] if clause == "unexpected-raise" else [field]
         what = "copy" if clause.startswith("copy") else ("roundtrip" if clause.startswith("rt-") else "read")
-        if what == "roundtrip":
-            facts = dict(facts, bareparen=facts["rt_bareparen"], bareparen_closed=facts["rt_bareparen_closed"])
-        ctx.violation(_key(_fn(obs["klass"], len(obs["doc"]) > 1), what, fields, facts),
+        ctx.violation(_key(_fn(obs["klass"], facts["system"]), what, fields, obs["cfg"], obs["allowed"],
+                           empty=facts["nlines"] == 0),
                       {"direction": "code->spec", "trace": tr, "text": txt, "source": label,
-                       "observed": {k: obs[k] for k in ("raised", "exc", "lines", "copy_eq", "rts")},
+                       "observed": {k: obs[k] for k in ("raised", "exc", "lines", "substances", "copy_eq", "copy_indep", "rts")},
                        "verdict": {"verdict": v, "pos": pos, "clause": clause}, "tlc_cfg": "ReactionTextTrace.cfg"})
     return traces
 
@@ -258,15 +271,31 @@ def _judge_traces(ctx, seqs, labels):
 def run(ctx):
     import chempy  # noqa
     import core
-    # every action of the generator is taken (small configuration, -coverage on)
-    ctx.tlc("ReactionText_MC", "ReactionText_MC_cover.cfg", require_cases=50, timeout=600, require_actions=[
-        "GenAllowed", "GenTerm", "GenInactive", "GenArrow", "GenParam", "GenKw", "GenComment", "GenNewLine",
-        "Finish", "GenUnknownKey", "GenMissingArrow", "GenWrongArrow", "PrintText", "ParseText"])
+    # every action of the generator is taken: in the thorough tier measured with -coverage on a small
+    # configuration; in the quick tier every action leaves a class of cases that must be present (NEED)
+    if not ctx.quick:
+        ctx.tlc("ReactionText_MC", "ReactionText_MC_cover.cfg", require_cases=50, timeout=600, require_actions=[
+            "GenAllowed", "GenConfig", "GenTerm", "GenInactive", "GenArrow", "GenParam", "GenKw", "GenComment",
+            "GenNewLine", "Finish", "GenUnknownKey", "GenMissingArrow", "GenWrongArrow", "GenStaleComment",
+            "PrintText", "ParseText"])
     slices = QUICK if ctx.quick else THOROUGH
-    per_slice = 2000 if ctx.quick else None
+    per_slice = 800 if ctx.quick else None
+    by_slice = {}
+    if ctx.quick:
+        # the quick slices are explored in ONE TLC run (the slice is a variable fixed in the initial
+        # state; ReactionText_MC!QuickNames must list the same slices)
+        res = ctx.tlc("ReactionText_MC", "ReactionText_MC_quick.cfg", require_cases=100, timeout=1500)
+        for c in res.cases:
+            by_slice.setdefault(c["in"]["slice"], []).append(c)
+        if set(by_slice) != set(slices):
+            raise core.MachineryFailure("quick configuration explores %s, expected %s" % (sorted(by_slice), slices))
     for sl in slices:
-        res = ctx.tlc("ReactionText_MC", "ReactionText_MC_%s.cfg" % sl, require_cases=100, timeout=1500)
-        cases = res.cases
+        if ctx.quick:
+            cases = by_slice.pop(sl)
+            cfgname = "ReactionText_MC_quick.cfg"
+        else:
+            cfgname = "ReactionText_MC_%s.cfg" % sl
+            cases = ctx.tlc("ReactionText_MC", cfgname, require_cases=100, timeout=1500).cases
         classes = set(c["cls"] for c in cases)
         for need in NEED[sl.split("_")[0]]:
             if not any(need in c for c in classes):
@@ -276,28 +305,30 @@ def run(ctx):
         ctx.cases_replayed += len(sel)
         for case, (obs, bad) in zip(sel, outs):
             txt = "\n".join(case["in"]["doc"])
-            ctx.ran(txt, nontrivial=case["cls"] not in ("ok", "ok-eq"))
+            ctx.ran([txt, case["in"]["cfg"], case["in"]["allowed"]], nontrivial=case["cls"] not in ("ok", "ok-eq"))
             if bad is None:
                 continue
             what, fields, expected = bad
-            ctx.violation(_key(_fn(case["in"]["klass"], case["in"]["system"]), what, fields, case_facts(case, what), case["cls"]),
+            ctx.violation(_key(_fn(case["in"]["klass"], case["in"]["system"]), what, fields, case["in"]["cfg"],
+                               case["in"]["allowed"], case["cls"], empty=not case["exp"]["lines"]),
                           {"direction": "spec->code", "case": case, "text": txt,
-                           "observed": {k: obs.get(k) for k in ("raised", "exc", "lines", "copy_eq", "rts", "retried")},
-                           "expected": expected, "tlc_cfg": "ReactionText_MC_%s.cfg" % sl})
+                           "observed": {k: obs.get(k) for k in ("raised", "exc", "lines", "substances", "copy_eq",
+                                                                "copy_indep", "rts", "retried")},
+                           "expected": expected, "tlc_cfg": cfgname})
         if sel:
             c0 = sel[0]
-            ctx.sample({"slice": sl, "doc": c0["in"]["doc"], "klass": c0["in"]["klass"],
+            ctx.sample({"slice": sl, "doc": c0["in"]["doc"], "klass": c0["in"]["klass"], "cfg": c0["in"]["cfg"],
                         "exp": {"raise": c0["exp"]["raise"], "lines": c0["exp"]["lines"]}}, cap=8)
     ctx.exhaustive = not ctx.quick
 
     # ---- code -> spec: seeded texts beyond the bounds and the lines the repository's tests and
     # docstrings parse, judged by TLC
-    n = 1500 if ctx.quick else 40000
-    g = rc.Gen(ctx.rng)
+    n = 800 if ctx.quick else 40000
+    g = rc.Gen(ctx.rng, max_terms=5 if ctx.quick else 8)
     seqs, labels = [], []
+    faults = [None, None, None, None, None, None, "unknown", "stale", "missingarrow", "wrongarrow"]
     for i in range(n):
-        fault = [None, None, None, None, None, None, "unknown", "unknown", "missingarrow", "wrongarrow"][i % 10]
-        seqs.append(g.text(fault=fault)[0])
+        seqs.append(g.text(fault=faults[i % 10])[0])
         labels.append("seeded")
     nlex = 0
     for s in suite_lines():
